@@ -11,6 +11,7 @@ Per (program, simulation) task it records into <workdir>/monitor.d/<prog>__<sim>
   np_draw_before_seed    the numpy global generator was advanced between the start of the task and the
                          first np.random.seed(...) of the task (or no seed call happened at all and the state moved)
   seed_calls             number of np.random.seed calls during the task
+  none_seed_calls        how many of them had the argument None (re-seed from OS entropy; must be 0 with pre-seeding on)
   other_args_mutated     positions of the other simulate() arguments (daylight, weather, parameter dicts, ...) whose pickle changed
   infra_arg_mutated      the pickled `infrastructure` argument of simulate() (the object shared by all programs of a
                          simulation in sequential mode) differs before/after the task
@@ -118,7 +119,7 @@ def install(job):
     STATE["dir"] = os.path.join(root, "monitor.d")
     os.makedirs(STATE["dir"], exist_ok=True)
     STATE["base"] = snapshot(src)
-    task = {"first_seed_state": None, "seed_calls": 0, "active": False}
+    task = {"first_seed_state": None, "seed_calls": 0, "none_seed_calls": 0, "active": False}
 
     orig_seed = np.random.seed
 
@@ -127,6 +128,9 @@ def install(job):
             if task["seed_calls"] == 0:
                 task["first_seed_state"] = _np_state_digest(np)
             task["seed_calls"] += 1
+            arg = a[0] if a else k.get("seed")
+            if arg is None:
+                task["none_seed_calls"] += 1   # np.random.seed(None): fresh OS entropy
         return orig_seed(*a, **k)
 
     np.random.seed = seed
@@ -146,7 +150,7 @@ def install(job):
         other0 = [_infra_digest(a) if i not in (9, 13) else None for i, a in enumerate(args)]
         std0 = hashlib.sha1(repr(_stdlib_random.getstate()).encode()).hexdigest()
         np0 = _np_state_digest(np)
-        task.update(first_seed_state=None, seed_calls=0, active=True)
+        task.update(first_seed_state=None, seed_calls=0, none_seed_calls=0, active=True)
         seq = STATE["seq"]
         STATE["seq"] += 1
         t0 = time.time()
@@ -166,7 +170,7 @@ def install(job):
             rec = {"prog": prog, "sim": sim, "pid": os.getpid(), "seq": seq, "t0": t0,
                    "dirty_at_entry": _diff(STATE["base"], before), "changed": _diff(before, after),
                    "stdlib_used": std0 != std1, "np_draw_before_seed": bool(pre),
-                   "seed_calls": task["seed_calls"],
+                   "seed_calls": task["seed_calls"], "none_seed_calls": task["none_seed_calls"],
                    "infra_arg_mutated": (infra0 is not None and infra1 is not None and infra0 != infra1),
                    "infra_digest_ok": infra0 is not None and infra1 is not None,
                    # every other argument of simulate() (daylight, weather, parameter dicts, seed series, measured-df;
